@@ -74,6 +74,11 @@ CLAIMED["C16"] = dict(engine="loader", technique="TLA+ specification of the abst
     text="Loader.tla defines the abstract package (command, dependencies, literal and glob inputs with excludes, outputs, bin_output, tags, fingerprint, platforms with package defaults, timeout, alias), Expected(pkg) by the enrichment rules, and the Makefile annotation automaton over all sequences of seven line kinds. Every abstract package (9 216) is rendered as BUILD.json, BUILD.yaml, BUILD.star and Makefile annotations and loaded by the real loaders through LoadPackages; each must produce exactly Expected (so all formats agree); every line-kind sequence (19 608 / 137 257) goes through the real Makefile loader and must give the specified targets or error; ten structural JSON corruptions must be rejected; seeded byte-level mutations of renderings in all formats and loads under worker counts 1..16 must neither panic, hang nor change the result.",
     note="Not decided by the specification: arbitrary byte-level corruption (run as seeded samples, judged only for panics and hangs); pkl and script loaders are not exercised; globs that match the BUILD file itself are outside the cross-format claim (the file name necessarily differs). Trusted: TLC, the four renderers in harness/cmd/h/loader.go.")
 
+CLAIMED["C10"] = dict(engine="locker", technique="explicit TLA+ specification of the lock protocol (one action per file-system call, processes, crashes) checked exhaustively with TLC; TLC-generated schedules and per-branch shortest schedules replayed into real OS processes stepped at every file-system call (behaviour replay with state comparison)",
+    category="model_checking", design_ref="DESIGN.md section 4.6, section 7 C10",
+    text="Locker.tla models open / flock / verify-inode / write / read / sleep / remove / close as separate steps of 2 and 3 processes with crashes between any two steps and every kind of pre-existing lock file; TLC checks Mutex, NoForeignUnlink, HolderOwnsPath on every interleaving and AllFinish (waiters proceed, stale files never block) under fairness. Real OS processes running the repository's Lock/Unlock are stepped one file-system call at a time by a controller (gates compiled in with the verif tag, SIGKILL for crashes) along TLC-simulated schedules and along the BFS-shortest schedule reaching each protocol branch (verify fails because the file was unlinked / replaced, flock blocked, acquisition after a holder crashed, crash between flock and write, second acquisition after unlock, ...); after every step the processes inside the critical section, the presence of the lock file and the gate every process waits at must equal the specification's state; goal prefixes are then continued in seeded free order under the two-holders oracle.",
+    note="Linux flock(2) semantics; one Lock/Unlock per process; the PID written into the file is informational. Trusted: TLC, the gate hooks sitting immediately before each system call of workspace_locker.go (a call added without a gate would run atomically with its neighbour), the controller in vlib/checks/c10.py.")
+
 PENDING = "check not built yet in this round (specification and binding planned in DESIGN.md section 7); not claimed until its quick tier is registered"
 
 checks, na = [], []
@@ -116,6 +121,7 @@ manifest = {
    {"name": "traversal", "path": "spec/Traversal.tla + harness/cmd/h/traversal.go + vlib/checks/c19.py", "serves_properties": ["C19"], "kind_free_text": "visited-set traversal spec; real work counters against the specified bound"},
    {"name": "query", "path": "spec/Query.tla + vlib/checks/c20.py", "serves_properties": ["C20"], "kind_free_text": "TLC-exported query answers compared with the real commands' stdout"},
    {"name": "loader", "path": "spec/Loader.tla + harness/cmd/h/loader.go + vlib/checks/c16.py", "serves_properties": ["C16"], "kind_free_text": "TLC-enumerated abstract packages rendered in four formats and loaded by the real loaders"},
+   {"name": "locker", "path": "spec/Locker.tla + spec/LockerGen.tla + harness/cmd/h/lockproc.go + vlib/checks/c10.py", "serves_properties": ["C10"], "kind_free_text": "exhaustive TLC over process interleavings and crashes; schedules replayed into real stepped processes"},
    {"name": "labels", "path": "spec/Labels.tla + harness/cmd/h/labels.go + vlib/checks/c17.py", "serves_properties": ["C17"], "kind_free_text": "TLC-enumerated function specification, reference table replayed into the real API"},
  ],
  "checks": checks,
